@@ -40,6 +40,8 @@ pub enum MOp {
     SetFile(Option<String>),
     SetDebugId(Option<String>),
     AddToIgnoreList(u16),
+    /// go on with a clone; the map the clone was taken from stays alive and keeps reading as it did
+    CloneAside,
 }
 
 #[derive(Clone, Debug, Hash, Serialize, Deserialize)]
@@ -302,6 +304,7 @@ fn check(c: &Case, obs: &mut Obs) -> Verdict {
     let mut seen_set_source = false;
     let mut root_after_source = false;
     let mut saveload = false;
+    let mut aside: Option<(SourceMap, Vec<String>, Option<String>, Vec<Option<String>>, usize)> = None;
     for (k, op) in c.map_ops.iter().enumerate() {
         let stage = format!("map op {k} {op:?}");
         let r = guard(|| -> Result<(), String> {
@@ -343,6 +346,10 @@ fn check(c: &Case, obs: &mut Obs) -> Verdict {
                         sm.add_to_ignore_list(i);
                     }
                 }
+                MOp::CloneAside => {
+                    let copy = sm.clone();
+                    aside = Some((std::mem::replace(&mut sm, copy), raw.clone(), root.clone(), contents.clone(), k));
+                }
                 MOp::SaveLoad => {
                     let mut out = vec![];
                     sm.to_writer(&mut out).map_err(|e| format!("to_writer: {e}"))?;
@@ -359,7 +366,13 @@ fn check(c: &Case, obs: &mut Obs) -> Verdict {
             if ign != ignore {
                 return Err(format!("{stage}: ignore_list() = {ign:?}, expected {ignore:?}"));
             }
-            check_map_against(&sm, &raw, &root, &contents, &stage)
+            check_map_against(&sm, &raw, &root, &contents, &stage)?;
+            if let Some((old, oraw, oroot, ocontents, since)) = &aside {
+                check_map_against(old, oraw, oroot, ocontents, &format!("{stage}: the map a clone was taken from at op {since}"))?;
+                // and the clone again, after the older object has been read
+                check_map_against(&sm, &raw, &root, &contents, &format!("{stage} (read again after the older object)"))?;
+            }
+            Ok(())
         });
         match r {
             Ok(Ok(())) => {}
@@ -386,6 +399,7 @@ fn check(c: &Case, obs: &mut Obs) -> Verdict {
                 obs.class("set_source(current reading)");
             }
             MOp::SaveLoad => saveload = true,
+            MOp::CloneAside => obs.class("clone-kept-alive"),
             MOp::SetFile(_) => obs.class("set_file-on-map"),
             MOp::SetDebugId(_) => obs.class("set_debug_id-on-map"),
             MOp::AddToIgnoreList(_) => obs.class("add_to_ignore_list-on-map"),
@@ -449,6 +463,7 @@ fn mop() -> BoxedStrategy<MOp> {
         3 => (any::<u16>(), src_string()).prop_map(|(i, s)| MOp::SetSource(i, s)),
         2 => (any::<u16>(), content_opt()).prop_map(|(i, t)| MOp::SetSourceContents(i, t)),
         2 => Just(MOp::SaveLoad),
+        1 => Just(MOp::CloneAside),
         2 => any::<u16>().prop_map(MOp::SetSourceToReading),
         1 => proptest::option::of(proptest::sample::select(vec!["out.js", "", "dist/ö.js"]).prop_map(str::to_string)).prop_map(MOp::SetFile),
         1 => proptest::option::of(proptest::sample::select(vec!["dfb8e43a-f242-3d73-a453-aeb6a777ef75", "00000000-0000-0000-0000-000000000001", "dfb8e43a-f242-3d73-a453-aeb6a777ef75-a"]).prop_map(str::to_string)).prop_map(MOp::SetDebugId),
